@@ -395,6 +395,7 @@ theorem Json.beq_sound : ∀ (a b : Json), Json.beq a b = true → a = b
   | .bool x, b, h => by cases b <;> simp [Json.beq] at h ⊢; exact h
   | .int x, b, h => by cases b <;> simp [Json.beq] at h ⊢; exact h
   | .str x, b, h => by cases b <;> simp [Json.beq] at h ⊢; exact h
+  | .float n d, b, h => by cases b <;> simp [Json.beq] at h ⊢; exact h
   | .list xs, b, h => by
     cases b with
     | list ys => simp only [Json.beq] at h; rw [Json.beqList_sound xs ys h]
